@@ -125,7 +125,7 @@ fn run_sub(mut args: Args) -> SubResult {
         res.cap("c04 thorough: the 159047 shapes with exactly 6 entries are run under 1 of their 4 instantiations each (rotation = (shape index + seed) mod 4); all shapes with <= 5 entries under all 4");
     }
     if !c04 && args.thorough() {
-        res.cap("c11 thorough stops at 5 entries (c04_sources covers 6): the cache-level work per tree is ~10x that of c04");
+        res.cap("c11 thorough stops at 5 entries (c04_sources covers 6): the cache-level work per tree is several times that of c04");
     }
     let total = cases.len();
     let timeout = Duration::from_secs(if args.thorough() { 3000 } else { 600 });
